@@ -19,7 +19,7 @@ REQUIRED = {
     "quick": {"index_values_checked": 12000, "fundamental_index_checked": 2000, "class/unequal_shares_run": 28, "class/index_over_an_index_run": 4, "class/index_read_right_after_a_cancel": 500,
               "class/component_shock_run": 10, "class/component_prices_moved_run": 30,
               "class/duplicate_component_refused": 4, "class/component_without_shares_refused": 4,
-              "class/arbitrageur_full_access_run": 4, "class/arbitrageur_partial_access_run": 4,
+              "class/arbitrageur_full_access_run": 2, "class/arbitrageur_partial_access_run": 2,
               "class/shock_on_component_of_an_index_with_static_fundamentals": 6},
     "thorough": {"index_values_checked": 600000, "fundamental_index_checked": 60000, "class/unequal_shares_run": 1200, "class/index_over_an_index_run": 150, "class/index_read_right_after_a_cancel": 25000,
                  "class/component_shock_run": 300, "class/component_prices_moved_run": 900,
